@@ -301,6 +301,7 @@ class ProcessCapabilityExchange():
         self.connection = association.connection
         self.message = message
 
+        self.mandatory_avps_found = set()
         self.checklist_mandatory_avps = 0
         self.checklist_optional_avps = 0
         self.checklist_error_avps = 0
@@ -318,23 +319,24 @@ class ProcessCapabilityExchange():
     def process_request(self):
         for avp in self.message.avps:
             if ProcessDiameterMessage.is_valid_origin_host_avp(avp, self.connection):
-                self.checklist_mandatory_avps += 1
+                self.mandatory_avps_found.add("origin_host")
 
             elif ProcessDiameterMessage.is_valid_origin_realm_avp(avp, self.connection):
-                self.checklist_mandatory_avps += 1
+                self.mandatory_avps_found.add("origin_realm")
 
             elif ProcessDiameterMessage.is_valid_host_ip_address_avp(avp, self.connection):
-                self.checklist_mandatory_avps += 1
+                self.mandatory_avps_found.add("host_ip_address")
 
             elif ProcessDiameterMessage.is_valid_vendor_id_avp(avp, self.connection):
-                self.checklist_mandatory_avps += 1
+                self.mandatory_avps_found.add("vendor_id")
 
             elif ProcessDiameterMessage.is_valid_product_name_avp(avp, self.connection):
-                self.checklist_mandatory_avps += 1
+                self.mandatory_avps_found.add("product_name")
 
             elif ProcessDiameterMessage.is_valid_origin_state_id_avp(avp, self.connection):
                 self.checklist_optional_avps += 1
 
+        self.checklist_mandatory_avps = len(self.mandatory_avps_found)
 
         if (self.checklist_mandatory_avps == 5) and (self.checklist_optional_avps >= 0 and self.checklist_optional_avps <= 7):
             self.is_valid = True
@@ -346,26 +348,27 @@ class ProcessCapabilityExchange():
         ProcessDiameterMessage.process_answer_from_existing_pending_request(self.association, self.message)
         for avp in self.message.avps:
             if ProcessDiameterMessage.is_valid_result_code_avp(avp):
-                self.checklist_mandatory_avps += 1
+                self.mandatory_avps_found.add("result_code")
 
             if ProcessDiameterMessage.is_valid_origin_host_avp(avp, self.connection):
-                self.checklist_mandatory_avps += 1
+                self.mandatory_avps_found.add("origin_host")
 
             elif ProcessDiameterMessage.is_valid_origin_realm_avp(avp, self.connection):
-                self.checklist_mandatory_avps += 1
+                self.mandatory_avps_found.add("origin_realm")
 
             elif ProcessDiameterMessage.is_valid_host_ip_address_avp(avp, self.connection):
-                self.checklist_mandatory_avps += 1
+                self.mandatory_avps_found.add("host_ip_address")
 
             elif ProcessDiameterMessage.is_valid_vendor_id_avp(avp, self.connection):
-                self.checklist_mandatory_avps += 1
+                self.mandatory_avps_found.add("vendor_id")
 
             elif ProcessDiameterMessage.is_valid_product_name_avp(avp, self.connection):
-                self.checklist_mandatory_avps += 1
+                self.mandatory_avps_found.add("product_name")
 
             elif ProcessDiameterMessage.is_valid_origin_state_id_avp(avp, self.connection):
                 self.checklist_optional_avps += 1
 
+        self.checklist_mandatory_avps = len(self.mandatory_avps_found)
 
         if (self.checklist_mandatory_avps == 6) and (self.checklist_optional_avps >= 0 or self.checklist_optional_avps <= 7):
             self.is_valid = True
@@ -379,6 +382,7 @@ class ProcessDeviceWatchdog():
         self.connection = association.connection
         self.message = message
 
+        self.mandatory_avps_found = set()
         self.checklist_mandatory_avps = 0
         self.checklist_optional_avps = 0
         self.checklist_error_avps = 0
@@ -396,14 +400,15 @@ class ProcessDeviceWatchdog():
     def process_request(self):
         for avp in self.message.avps:
             if ProcessDiameterMessage.is_valid_origin_host_avp(avp, self.connection):
-                self.checklist_mandatory_avps += 1
+                self.mandatory_avps_found.add("origin_host")
 
             elif ProcessDiameterMessage.is_valid_origin_realm_avp(avp, self.connection):
-                self.checklist_mandatory_avps += 1
+                self.mandatory_avps_found.add("origin_realm")
 
             elif ProcessDiameterMessage.is_valid_origin_state_id_avp(avp, self.connection):
                 self.checklist_optional_avps += 1
 
+        self.checklist_mandatory_avps = len(self.mandatory_avps_found)
 
         if (self.checklist_mandatory_avps == 2) and (self.checklist_optional_avps == 0 or self.checklist_optional_avps == 1):
             self.is_valid = True
@@ -416,17 +421,18 @@ class ProcessDeviceWatchdog():
 
         for avp in self.message.avps:
             if ProcessDiameterMessage.is_valid_result_code_avp(avp):
-                self.checklist_mandatory_avps += 1
+                self.mandatory_avps_found.add("result_code")
 
             if ProcessDiameterMessage.is_valid_origin_host_avp(avp, self.connection):
-                self.checklist_mandatory_avps += 1
+                self.mandatory_avps_found.add("origin_host")
 
             elif ProcessDiameterMessage.is_valid_origin_realm_avp(avp, self.connection):
-                self.checklist_mandatory_avps += 1
+                self.mandatory_avps_found.add("origin_realm")
 
             elif ProcessDiameterMessage.is_valid_origin_state_id_avp(avp, self.connection):
                 self.checklist_optional_avps += 1
 
+        self.checklist_mandatory_avps = len(self.mandatory_avps_found)
 
         if (self.checklist_mandatory_avps == 3) and (self.checklist_optional_avps == 0 or self.checklist_optional_avps == 1):
             self.is_valid = True
@@ -440,6 +446,7 @@ class ProcessDisconnectPeer():
         self.connection = association.connection
         self.message = message
 
+        self.mandatory_avps_found = set()
         self.checklist_mandatory_avps = 0
         self.checklist_optional_avps = 0
         self.checklist_error_avps = 0
@@ -457,14 +464,15 @@ class ProcessDisconnectPeer():
     def process_request(self):
         for avp in self.message.avps:
             if ProcessDiameterMessage.is_valid_origin_host_avp(avp, self.connection):
-                self.checklist_mandatory_avps += 1
+                self.mandatory_avps_found.add("origin_host")
 
             elif ProcessDiameterMessage.is_valid_origin_realm_avp(avp, self.connection):
-                self.checklist_mandatory_avps += 1
+                self.mandatory_avps_found.add("origin_realm")
 
             elif ProcessDiameterMessage.is_valid_disconnect_cause_avp(avp):
-                self.checklist_mandatory_avps += 1
+                self.mandatory_avps_found.add("disconnect_cause")
 
+        self.checklist_mandatory_avps = len(self.mandatory_avps_found)
 
         if (self.checklist_mandatory_avps == 3):
             self.is_valid = True
@@ -477,14 +485,15 @@ class ProcessDisconnectPeer():
 
         for avp in self.message.avps:
             if ProcessDiameterMessage.is_valid_result_code_avp(avp):
-                self.checklist_mandatory_avps += 1
+                self.mandatory_avps_found.add("result_code")
 
             if ProcessDiameterMessage.is_valid_origin_host_avp(avp, self.connection):
-                self.checklist_mandatory_avps += 1
+                self.mandatory_avps_found.add("origin_host")
 
             elif ProcessDiameterMessage.is_valid_origin_realm_avp(avp, self.connection):
-                self.checklist_mandatory_avps += 1
+                self.mandatory_avps_found.add("origin_realm")
 
+        self.checklist_mandatory_avps = len(self.mandatory_avps_found)
 
         if (self.checklist_mandatory_avps == 3) and (self.checklist_error_avps >= 0 and self.checklist_error_avps <= 2):
             self.is_valid = True
